@@ -73,7 +73,7 @@ func pickSize(r *Rng, lim GenLimits) int {
 
 func genKeys(r *Rng, lim GenLimits) ([][]byte, string) {
 	n := pickSize(r, lim)
-	kind := r.Intn(11)
+	kind := r.Intn(12)
 	if n > 20000 && (kind == 4 || kind == 9 || kind == 10) {
 		// long-key families: bound the total key volume (a 10^5-key set with
 		// 400-byte shared runs costs billions of steps per build and starves
@@ -202,6 +202,33 @@ func genKeys(r *Rng, lim GenLimits) ([][]byte, string) {
 			p := append(r.Bytes(r.Range(1, 2)), []byte(strings.Repeat(string(rune('a'+g%26)), r.PickI(9, 17, 33, 65, 129, 200)))...)
 			for j := 0; j < 8 && len(set) < n; j++ {
 				set[string(append(append([]byte{}, p...), r.Bytes(r.Range(1, 3))...))] = true
+			}
+		}
+	case 11: // many 257-bit nodes: every node of the first two or three levels has more than 10 children
+		// (the builder keeps creating big nodes only as long as EVERY node in
+		// breadth-first order fans out that much, so random fan-out rarely gives
+		// more than a handful of them)
+		f := r.PickI(12, 24, 64, 200)
+		sd := r.PickI(12, 16, 32)
+		for f*sd > n && f > 12 {
+			f /= 2
+		}
+		third := 1
+		if n >= f*sd*12 && r.Chance(0.5) {
+			third = 12
+		}
+		name = fmt.Sprintf("bignodes/%dx%dx%d", f, sd, third)
+		fb, sb, tb := r.Perm(256)[:f], r.Perm(256)[:sd], r.Perm(256)[:third]
+		for _, a := range fb {
+			for _, b := range sb {
+				for _, t := range tb {
+					k := []byte{byte(a), byte(b)}
+					if third > 1 {
+						k = append(k, byte(t))
+					}
+					k = append(k, []byte(fmt.Sprintf("%03x", r.Intn(4096)))[:r.Range(0, 3)]...)
+					set[string(k)] = true
+				}
 			}
 		}
 	case 8: // binary caterpillar / nibble boundaries
